@@ -22,6 +22,9 @@ type ProgGen struct {
 	Filters, Funcs, Tests []string
 	// MaxDepth bounds statement nesting.
 	MaxDepth int
+	// SingleEntryHashes keeps hash literals to at most one entry, so that nothing
+	// depends on Go's map iteration order (needed by the differential checks).
+	SingleEntryHashes bool
 
 	seq    int
 	locals []string
@@ -146,6 +149,9 @@ func (g *ProgGen) Expr(depth int) Expr {
 		return &EArr{Els: els}
 	case 8:
 		n := r.Intn(3)
+		if g.SingleEntryHashes && n > 1 {
+			n = 1
+		}
 		h := &EHash{}
 		for i := 0; i < n; i++ {
 			var k Expr
